@@ -237,31 +237,37 @@ inductive PutOutcome where
   | generic                -- GenericError 500
 deriving DecidableEq, Repr
 
+/-- The tail of `PutBlock`: `writables := AllWritable()`, FullError without any, else the loop.
+`c` is the counter value after `NextWritable`. -/
+def putViaLoop (h : δ) (body : β) (vols : List (Vol δ β)) (c : Nat) : PutOutcome × List (Vol δ β) × Nat :=
+  if (allWritable vols).length = 0 then (.full, vols, c)
+  else match putLoop h body vols with
+    | .ok r vs => (.ok r, vs, c)
+    | .allFull => (.full, vols, c)
+    | .failed => (.generic, vols, c)
+
+/-- `PutBlock` after `CompareAndTouch` found nothing to touch: `Put` on `NextWritable()`; if that
+fails (or there is none), every writable mount in order. -/
+def putNew (h : δ) (body : β) (vols : List (Vol δ β)) (rr : Nat) : PutOutcome × List (Vol δ β) × Nat :=
+  match nextWritable vols rr with
+  | (none, c) => putViaLoop h body vols c
+  | (some k, c) =>
+    match nthWritable vols k with
+    | none => putViaLoop h body vols c
+    | some v =>
+      match volWrite v h body with
+      | (.ok, v') => (.ok (effRepl v), setNthWritable v' vols k, c)
+      | _ => putViaLoop h body vols c
+
 /-- `PutBlock` on mount list `vols` with round-robin counter `rr`: outcome, new mount list, new
-counter. -/
+counter. The MD5 of the body is compared with the requested hash before any volume is touched. -/
 def putBlock (hash : β → δ) (size : β → Nat) (vols : List (Vol δ β)) (rr : Nat) (h : δ) (body : β) :
     PutOutcome × List (Vol δ β) × Nat :=
   if hash body ≠ h then (.requestHash, vols, rr)
   else match compareAndTouch hash size h body vols with
     | .touched r => (.ok r, vols, rr)
     | .collision => (.collision, vols, rr)
-    | .miss =>
-      let nw := nextWritable vols rr
-      let viaLoop : PutOutcome × List (Vol δ β) × Nat :=
-        if (allWritable vols).length = 0 then (.full, vols, nw.2)
-        else match putLoop h body vols with
-          | .ok r vs => (.ok r, vs, nw.2)
-          | .allFull => (.full, vols, nw.2)
-          | .failed => (.generic, vols, nw.2)
-      match nw.1 with
-      | none => viaLoop
-      | some k =>
-        match nthWritable vols k with
-        | none => viaLoop
-        | some v =>
-          match volWrite v h body with
-          | (.ok, v') => (.ok (effRepl v), setNthWritable v' vols k, nw.2)
-          | _ => viaLoop
+    | .miss => putNew h body vols rr
 
 def putStatus : PutOutcome → Nat
   | .ok _ => 200
